@@ -163,6 +163,23 @@ func (g *gen) model(maxTables int) *Model {
 	return m
 }
 
+// makeUnorderable adds 1-2 references no order can satisfy
+func (g *gen) makeUnorderable(m *Model) {
+	for k := 0; k < 1+g.r.Intn(2); k++ {
+		t := &m.Tables[g.r.Intn(len(m.Tables))]
+		o := &m.Tables[g.r.Intn(len(m.Tables))]
+		switch g.r.Intn(3) {
+		case 0: // self reference (or a cycle through o when o != t and o already refers to t)
+			t.Cols = append(t.Cols, Col{Name: g.name("ckxZ"), Ref: &[2]string{t.Name, t.Cols[0].Name}})
+		case 1: // two tables referring to each other
+			t.Cols = append(t.Cols, Col{Name: g.name("ckxZ"), Ref: &[2]string{o.Name, o.Cols[0].Name}})
+			o.Cols = append(o.Cols, Col{Name: g.name("ckxZ"), Ref: &[2]string{t.Name, t.Cols[0].Name}})
+		default: // a column that does not exist
+			t.Cols = append(t.Cols, Col{Name: g.name("ckxZ"), Ref: &[2]string{o.Name, g.name("ckxZ")}})
+		}
+	}
+}
+
 // ---- edits (each keeps the model valid: references resolve, graph acyclic by rank)
 
 // fixReferrers: column (tn, cn) is going away or stops being referable; every column referring to it is
@@ -385,6 +402,13 @@ func generate(r *runner) {
 		g := fresh(i%5 == 4)
 		m := g.model(maxT)
 		r.run("create", []*Model{m}, "")
+	}
+	// 1b. unorderable reference graphs (self reference, cycle, reference to a missing column): not judged, compared
+	for i := 0; i < nCreate/6; i++ {
+		g := fresh(false)
+		m := g.model(maxT)
+		g.makeUnorderable(m)
+		r.run("create-unorderable", []*Model{m}, "")
 	}
 	// 2. pairs: one targeted edit kind (every kind equally often), or a mixed script of up to 4 edits
 	for i := 0; i < nPair; i++ {
